@@ -241,6 +241,15 @@ def agg_fn(name, weights, shapes, rounds=2):
       qkeys = [k for kind, k in rec.calls if kind == 'quantize']
       rkeys = [k for kind, k in rec.calls if kind == 'rotate']
       ref_q = []
+      enough = (len(rkeys) if name in ('rotated_uniform', 'drive') else len(qkeys)) >= len(weights) and \
+          (name == 'drive' or len(qkeys) >= len(weights)) and out is not None
+      if not enough:     # fewer quantiser calls than clients (or no aggregate at all): the per-client goal below fails
+        z = jax.tree_util.tree_map(jnp.zeros_like, trees[rnd][0])
+        res.append({'out': z, 'ref': z, 'qkeys': [jnp.asarray(k) for k in qkeys], 'rkeys': [jnp.asarray(k) for k in rkeys],
+                    'bits': jnp.asarray(new.num_bits - st.num_bits, jnp.float32), 'rng_old': st.rng, 'rng_new': new.rng,
+                    'ncalls': (len(qkeys), len(rkeys))})
+        st = new
+        continue
       for i in range(len(weights)):
         p = trees[rnd][i]
         if name == 'uniform':
@@ -360,7 +369,24 @@ def replay(data):
       msg = check_concrete(kind, v, u, out, data.get('L', 2))
       if msg:
         return True, 'v=%s u=%s -> %s: %s' % (v.tolist(), u.tolist(), out.tolist(), msg)
-    return False, 'agrees on the model input and 22 further inputs'
+    if 'v' in data:
+      # the encoding was traced at float32 (dtype-dependent constants such as finfo.eps are baked in): replay the model
+      # input at float32 as well, with a tolerance of a few float32 ulps of the largest magnitude or 1e-3 of the range
+      v, u = cases[0]
+      v32 = np.asarray(v, np.float32)
+      with FixedUniform(u):
+        try:
+          fn = {'uniform': lambda x: c.uniform_stochastic_quantize(x, data['L'], key), 'binary': lambda x: c.binary_stochastic_quantize(x, key),
+                'terngrad': lambda x: c.terngrad_quantize(x, key)}[kind]
+          out = np.asarray(fn(jnp.asarray(v32)), np.float64)
+        except Exception as e:   # pylint: disable=broad-except
+          return True, 'real quantiser raises %r (float32)' % (e,)
+      v64 = np.asarray(v32, np.float64)
+      tol = max(4 * 1.2e-7 * float(np.abs(v64).max()), 1e-3 * float(v64.max() - v64.min()))
+      msg = check_concrete(kind, v64, u, out, data.get('L', 2), tol=tol)
+      if msg:
+        return True, '[float32] v=%s u=%s -> %s: %s' % (v64.tolist(), u.tolist(), out.tolist(), msg)
+    return False, 'agrees on the model input (float64 and float32) and 22 further inputs'
   if kind == 'drive':
     v = np.asarray(data['v'], np.float64)
     out = np.asarray(c.drive_pytree({'a': jnp.asarray(v)})['a'], np.float64)
@@ -436,10 +462,10 @@ def aux_arithmetic_bits():
   return bool(msgs), '; '.join(msgs) or 'agrees'
 
 
-def check_concrete(kind, v, u, out, L):
+def check_concrete(kind, v, u, out, L, tol=None):
   if not np.all(np.isfinite(out)):
     return 'non-finite output'
-  tol = 1e-9 * (1 + np.abs(v).max())
+  tol = 1e-9 * (1 + np.abs(v).max()) if tol is None else tol
   if kind in ('uniform', 'binary'):
     m, M = v.min(), v.max()
     r = M - m
